@@ -61,6 +61,10 @@ PROPS = {}
 PROPS["C09"] = {
     "configs": BOTH,
     "rules": [
+        ("R-CLONE-IDENTITY", rp2.rule_clone_identity, {"group": ("problem",)}),
+        # no other way to change the model or the cache than set_params (a `&mut` accessor to the model would let a caller apply
+        # parameters without the cache being emptied or recomputed: stale data)
+        ("R-WHO-WRITES", rp2.rule_who_writes, {}),
         # builder-made models honour the shape contract the rest relies on: a basis function or derivative whose output has the
         # wrong length (too short OR too long) is reported as an error, never copied into a column (where nalgebra would panic)
         ("R-CHECKED-CALLS", rm.rule_checked_calls, {"configs": ("default",)}),
@@ -81,7 +85,8 @@ PROPS["C12"] = {
     "configs": BOTH,
     "thorough_configs": ("release",),
     "rules": [
-        ("R-CLONE-IDENTITY", rp2.rule_clone_identity, {"group": ('stats',)}),
+        ("R-STATS-SEALED", rs2.rule_stats_sealed, {}),
+        ("R-CLONE-IDENTITY", rp2.rule_clone_identity, {"group": ('stats', 'problem', 'weights')}),
         ("R-DOF-GUARD", _dof_guard, {}),
         ("R-STATS-ERR-MAP", rules_stats.rule_stats_err_map, {}),
         # "... or the model errs while the statistics are computed ... returns Err, without panicking"
@@ -157,6 +162,7 @@ PROPS["C01"] = {
 PROPS["C02"] = {
     "configs": BOTH,
     "rules": [
+        ("R-NO-SHADOW", rp2.rule_no_shadow, {}),
         # the observations are stored exactly as supplied (the single-column setter reshapes N×1 in order)
         ("R-OBS-RESHAPE", rp2.rule_obs_reshape, {}),
         ("R-CLONE-IDENTITY", rp2.rule_clone_identity, {"group": ('problem',)}),
@@ -196,6 +202,9 @@ PROPS["C03"] = {
 PROPS["C04"] = {
     "configs": BOTH,
     "rules": [
+        ("R-CLONE-IDENTITY", rp2.rule_clone_identity, {"group": ("problem",)}),
+        # "residuals = W(Y − Φ(α̂)Ĉ)" for the weights the caller supplied: they are stored unchanged
+        ("R-WEIGHTS-CTOR", rp2.rule_weights_ctor, {}),
         # "residuals = W(Y − Φ(α̂)Ĉ)": the stored data are W·Y, every column
         ("R-DATA-WEIGHT-ONCE", rp2.rule_data_weight_once, {}),
         ("R-FIT-MAP", rs2.rule_fit_map, {}),
@@ -269,6 +278,7 @@ PROPS["C07"] = {
 PROPS["C10"] = {
     "configs": BOTH,
     "rules": [
+        ("R-NO-SHADOW", rp2.rule_no_shadow, {}),
         ("R-CLONE-IDENTITY", rp2.rule_clone_identity, {"group": ('problem',)}),
         ("R-NO-HISTORY", rp2.rule_no_history, {}),
         ("R-WHO-WRITES", rp2.rule_who_writes, {}),
@@ -282,6 +292,10 @@ PROPS["C10"] = {
 PROPS["C11"] = {
     "configs": ("parallel",),
     "rules": [
+        ("R-NO-SHADOW", rp2.rule_no_shadow, {}),
+        # conversions between the flavours of the builder keep every role (a `parallel()` that forgets the threshold makes the
+        # two flavours compute different things)
+        ("R-SETTER-FRAME", rp2.rule_setter_frame, {}),
         ("R-SIBLING", rp2.rule_sibling, {}),
         ("R-PAR-PURE", rp2.rule_par_pure, {}),
         ("R-INTO-IDENTITY", rp2.rule_into_identity, {}),
@@ -295,9 +309,10 @@ PROPS["C11"] = {
 PROPS["C13"] = {
     "configs": BOTH,
     "rules": [
+        ("R-STATS-SEALED", rs2.rule_stats_sealed, {}),
         # H = W·J with W the row scaling by the given weights (exactly M for Unit, exactly the diagonal product for Diagonal)
         ("R-ROW-SCALING", rp2.rule_row_scaling, {}),
-        ("R-CLONE-IDENTITY", rp2.rule_clone_identity, {"group": ('stats',)}),
+        ("R-CLONE-IDENTITY", rp2.rule_clone_identity, {"group": ('stats', 'problem', 'weights')}),
         ("R-MODEL-JAC", rs2.rule_model_jac, {}),
         ("R-COVARIANCE", rs2.rule_covariance, {}),
         # "σ² is the reduced χ²": ‖r_w‖² over the degrees of freedom N−(M+P) of the model counts
@@ -314,7 +329,8 @@ PROPS["C13"] = {
 PROPS["C14"] = {
     "configs": BOTH,
     "rules": [
-        ("R-CLONE-IDENTITY", rp2.rule_clone_identity, {"group": ('stats',)}),
+        ("R-STATS-SEALED", rs2.rule_stats_sealed, {}),
+        ("R-CLONE-IDENTITY", rp2.rule_clone_identity, {"group": ('stats', 'problem', 'weights')}),
         ("R-BAND", rs2.rule_band, {}),
         ("R-DOF-GUARD", _dof_guard, {}),
         ("R-MODEL-JAC", rs2.rule_model_jac, {}),
@@ -328,6 +344,7 @@ PROPS["C14"] = {
 PROPS["C15"] = {
     "configs": ("default",),
     "rules": [
+        ("R-NAME-CONVERSION", rmb.rule_name_conversion, {}),
         ("R-TYPESTATE", rmb.rule_typestate, {}),
         ("R-FN-RESULT-STICKY", rmb.rule_fn_result_sticky, {}),
         ("R-BUILD-GUARDS", rmb.rule_build_guards, {}),
@@ -357,6 +374,8 @@ PROPS["C18"] = {
 PROPS["C16"] = {
     "configs": ("default",),
     "rules": [
+        ("R-NAME-CONVERSION", rmb.rule_name_conversion, {}),
+        ("R-MODEL-SEALED", rm.rule_model_sealed, {}),
         # "taken from the current parameter vector", "parameters set on the model are returned unchanged": the builder's value
         # setters store what they are given (a later call overrides an earlier one)
         ("R-MODEL-VALUE-SETTERS", _model_value_setters, {}),
@@ -373,6 +392,8 @@ PROPS["C16"] = {
 PROPS["C17"] = {
     "configs": ("default",),
     "rules": [
+        ("R-MODEL-SEALED", rm.rule_model_sealed, {}),
+        ("R-NO-SHADOW", rp2.rule_no_shadow, {}),
         ("R-CHECKED-CALLS", rm.rule_checked_calls, {}),
         ("R-ERR-STATE-PRESERVING", rm.rule_err_state_preserving, {}),
         ("R-MODEL-GUARDS", rm.rule_model_guards, {}),
